@@ -667,7 +667,7 @@ class NoteEvent(EventType, partial_events=(
         msg = gpp.node_param(msg)._as_osc_arg_list()
 
         server.addr.send_bundle(server.latency, msg)  # Missing ~latency, ~lag and ~timingOffset.
-        if self('send_gate'):
+        if self('send_gate') and self('sustain') != float('inf'):
             server.addr.send_bundle(
                 server.latency + self('sustain'),
                 ['/n_set', node_id, 'gate', 0])
